@@ -11,6 +11,8 @@ TRUSTED_BASE = [
 PROP_MODULES = {
     "C18": ["Tramp.Props.C18"],
     "C12": ["Tramp.Props.C12"],
+    "C10": ["Tramp.Props.C10"],
+    "C13": ["Tramp.Props.C13", "Tramp.Props.C18"],
 }
 
 # property -> theorem names (in namespace Tramp) = the proof obligations
@@ -23,18 +25,29 @@ OBLIGATIONS = {
         "c12_sound", "c12_exact_partial", "c12_mul_overflow_false", "c12_total", "c12_encode",
         "c12_pinned_panics", "c12_pinned_wraps_true", "c12_mul_overflow_counterexample",
     ],
+    "C10": [
+        "c10_classify_iff", "c10_hash_eq", "c10_invoice_source", "c10_amount_rule", "c10_tlvAmount_wellformed",
+        "c10_amount", "c10_selfhint_fails", "c10_pinned_counterexample",
+    ],
+    "C13": [
+        "c13_immediate", "c13_forward", "c13_rewrite_records", "c13_rewrite_bytes",
+        "c18_total_fromBytes", "c18_total_tryFrom",
+    ],
 }
 
 # suite -> harness parameters
 SUITES = {
     "tlv": {"profiles": ["dev"]},
     "fee": {"profiles": ["dev", "wrapping"]},
+    "classify": {"profiles": ["dev"]},
 }
 
 # property -> suites whose correspondence it depends on
 PROP_SUITES = {
     "C18": ["tlv"],
     "C12": ["fee"],
+    "C10": ["classify", "tlv"],
+    "C13": ["classify", "tlv"],
 }
 
 # protocol op -> properties that a model/implementation divergence on that op un-proves
